@@ -928,3 +928,69 @@ pub fn c17_search(seed: u64, n: u64) -> i32 {
     println!("SEARCH tried={} found=0", n);
     0
 }
+
+// ---------------------------------------------------------------------------------------------
+// C06 oracle: the text of a range parses back to the same range (same combos, bit-identical weights);
+// the text of a token parses back to an equal token
+pub fn check_c06(entries: &Vec<(CardPair, f32)>) -> Result<String, String> {
+    let a: HandRange = entries.iter().cloned().collect();
+    let text = match std::panic::catch_unwind(|| a.to_string()) { Ok(x) => x, Err(_) => return Err("to_string panicked".to_string()) };
+    let back = match std::panic::catch_unwind(|| text.parse::<HandRange>()) { Ok(Ok(x)) => x, Ok(Err(_)) => return Err(format!("text {:?} is rejected", text)), Err(_) => return Err(format!("parsing {:?} panicked", text)) };
+    let (ma, mb) = (a.card_pairs(), back.card_pairs());
+    for (p, w) in ma.iter() {
+        match mb.get(p) {
+            None => return Err(format!("text {:?} loses {}", text, p)),
+            Some(x) => if x.to_bits() != w.to_bits() { return Err(format!("text {:?} gives {} the weight {:?} instead of {:?}", text, p, x, w)); }
+        }
+    }
+    for (p, _) in mb.iter() { if !ma.contains_key(p) { return Err(format!("text {:?} adds {}", text, p)); } }
+    Ok(text)
+}
+
+pub fn c06_search(seed: u64, n: u64) -> i32 {
+    std::panic::set_hook(Box::new(|_| {}));
+    // tokens: every well-formed token shape x a few weights: text -> token -> text -> token
+    let mut tried = 0u64;
+    for (text, _) in all_token_shapes().iter() {
+        for wt in ["", ":0.5", ":0", ":0.25"].iter() {
+            tried += 1;
+            let t = format!("{}{}", text, wt);
+            let r = std::panic::catch_unwind(|| -> Result<(), String> {
+                let tok = t.parse::<HandRangeToken>().map_err(|_| "rejected as a token".to_string())?;
+                let again = tok.to_string().parse::<HandRangeToken>().map_err(|_| format!("its own text {:?} is rejected", tok.to_string()))?;
+                if again == tok { Ok(()) } else { Err(format!("its own text {:?} parses to a different token", tok.to_string())) }
+            });
+            let r = match r { Ok(x) => x, Err(_) => Err("panicked".to_string()) };
+            if let Err(e) = r { println!("WITNESS c06tok {} :: token {:?} {}", t, t, e); println!("SEARCH tried={} found=1", tried); return 1; }
+        }
+    }
+    let mut rng = Rng(seed ^ 0xC06);
+    let rps = all_rank_pairs();
+    let ws = [1.0f32, 0.5, 0.25, 0.0, f32::from_bits(0.5f32.to_bits() + 1), f32::from_bits(1.0f32.to_bits() - 1), 1e-10, 0.1, f32::from_bits(1)];
+    for _ in 0..n {
+        tried += 1;
+        let mut entries: Vec<(CardPair, f32)> = vec![];
+        let k = 1 + rng.below(6);
+        for _ in 0..k {
+            let start = rng.below(rps.len() as u64) as usize;
+            let len = 1 + rng.below(5) as usize;
+            let w = ws[rng.below(ws.len() as u64) as usize];
+            for rp in rps.iter().skip(start).take(len) {
+                let partial = rng.below(5) == 0;
+                for c in combos_fp(*rp) {
+                    if partial && rng.below(3) == 0 { continue; }
+                    if let Some(e) = entries.iter_mut().find(|e| e.0 == c) { e.1 = w; } else { entries.push((c, w)); }
+                }
+            }
+        }
+        if let Err(e) = check_c06(&entries) {
+            let d: Vec<String> = entries.iter().map(|(p, w)| format!("{}:{:?}", p, w)).collect();
+            println!("WITNESS c06 {} :: {}", d.join(","), e);
+            println!("SEARCH tried={} found=1", tried);
+            return 1;
+        }
+    }
+    println!("SEARCH tried={} found=0", tried);
+    0
+}
+
